@@ -16,6 +16,8 @@ let () = run_lines (fun toks ->
     out (Model.run_gcd4 (ps iu) (ps iv) (ps ia) (ps ib) (zs vu) (zs vv) (zs va) (zs vb))
   | ["divmod"; iq; ir; ia; ib; vq; vr; va; vb] ->
     out (Model.run_divmod (ps iq) (ps ir) (ps ia) (ps ib) (zs vq) (zs vr) (zs va) (zs vb))
+  | ["divmodw"; sg; iq; ia; vq; va; b] ->
+    out (Model.run_divmod_w (sg = "1") (ps iq) (ps ia) (zs vq) (zs va) (zs b))
   | ["powmod"; ir; inn; im; vr; vn; e; vm] ->
     out (Model.run_powmod (ps ir) (ps inn) (ps im) (zs vr) (zs vn) (zs e) (zs vm))
   | ["q"; op; ir; ia; rn; rd; an; ad] ->
